@@ -41,7 +41,8 @@ impl VxRangeBounds<u32> for Range<u32> {
 pub assume_specification<'a, T: Clone>[ Bound::<&'a T>::cloned ](b: Bound<&'a T>) -> (r: Bound<T>) where T: Clone
     ensures r == bound_val(b);
 
-// -- soroban_sdk::Bytes::slice / to_buffer, BytesBuffer::as_slice (read off soroban-sdk-25.0.2/src/bytes.rs)
+// -- soroban_sdk::Bytes::slice / to_buffer, BytesBuffer::as_slice (read off soroban-sdk-25.0.2/src/bytes.rs); the two
+//    Bytes methods themselves are in the fragments verifiers_ops (partial correctness) / verifiers_ops_strict (no trap)
 /// first index of `Bytes::slice(r)`: `Excluded(s)` means `s + 1` (checked, traps on overflow)
 pub open spec fn slice_lo(b: Bound<u32>) -> int {
     match b { Bound::Included(s) => s as int, Bound::Excluded(s) => s + 1, Bound::Unbounded => 0 }
@@ -56,21 +57,6 @@ impl<const B: usize> BytesBuffer<B> {
     #[verifier::external_body]
     pub fn as_slice(&self) -> (r: &[u8]) ensures r@ == self.s@ { unimplemented!() }
 }
-impl Bytes {
-    /// the host function `bytes_slice` traps unless `start <= end <= len`
-    #[verifier::external_body]
-    pub fn slice<R: VxRangeBounds<u32>>(&self, r: R) -> (res: Bytes)
-        ensures
-            0 <= slice_lo(r.vx_start()) <= slice_hi(r.vx_end(), self@.len() as int) <= self@.len(),
-            res@ == self@.subrange(slice_lo(r.vx_start()), slice_hi(r.vx_end(), self@.len() as int)),
-    { unimplemented!() }
-    /// copies the contents into `[u8; B]` (`&mut buffer[0..len]` panics if `len > B`) and remembers the length
-    #[verifier::external_body]
-    pub fn to_buffer<const B: usize>(&self) -> (r: BytesBuffer<B>)
-        ensures self@.len() <= B, r.s@ == self@,
-    { unimplemented!() }
-}
-
 // -- core: `&[T] != [U; N]` (impl PartialEq<[U; N]> for &[T]).  vstd has no spec for this impl; the generic result
 //    is left uninterpreted and fixed for `u8` (element-wise equality of bytes = equality of the sequences).
 pub uninterp spec fn slice_arr_ne<T, U, const N: usize>(a: &[T], b: &[U; N]) -> bool;
@@ -82,22 +68,13 @@ pub proof fn axiom_slice_arr_ne_u8<const N: usize>()
     ensures forall|a: &[u8], b: &[u8; N]| #[trigger] slice_arr_ne(a, b) == (a@ != b@)
 {}
 
-// -- serde_json_core::de::from_slice::<ClientDataJson> (external crate + `#[derive(serde::Deserialize)]`, ASSUMED).
+// -- serde_json_core::de::from_slice::<ClientDataJson> (external crate + `#[derive(serde::Deserialize)]`, ASSUMED);
+//    the function itself is in the fragments verifiers_ops / verifiers_ops_strict.
 /// the raw bytes (as they stand in the document, escape sequences NOT decoded — serde_json_core hands out a borrowed
 /// sub-slice) of the string value of the top-level member `name` of the JSON object at the start of `doc`;
 /// `None` if `doc` does not start with a JSON object having exactly one such string member.
 pub uninterp spec fn json_str_field(doc: Seq<u8>, name: Seq<char>) -> Option<Seq<u8>>;
 pub struct JsonDeError;
-/// `ClientDataJson { challenge, #[serde(rename = "type")] type_field }`: both members are required, unknown members are
-/// skipped, the second component is the number of bytes consumed (trailing bytes after the object are NOT an error).
-#[verifier::external_body]
-pub fn from_slice<'a>(v: &'a [u8]) -> (r: Result<(ClientDataJson<'a>, usize), JsonDeError>)
-    ensures
-        r is Ok ==> json_str_field(v@, "challenge"@) == Some(r->Ok_0.0.challenge.spec_bytes())
-            && json_str_field(v@, "type"@) == Some(r->Ok_0.0.type_field.spec_bytes())
-            && r->Ok_0.1 <= v@.len(),
-{ unimplemented!() }
-
 // -- core: Result::unwrap_or_else (vstd specifies only the Option one)
 pub assume_specification<T, E, F: FnOnce(E) -> T>[ Result::<T, E>::unwrap_or_else ](x: Result<T, E>, f: F) -> (res: T)
     requires x is Err ==> f.requires((x->Err_0,)),
